@@ -13,6 +13,7 @@ from ..front import AnalysisBroken
 from ..facts import walk, calls, short
 from ..lexer import pat_can_match, pat_count, pat_fixed_len
 from . import globalstate
+from ..inline import expanded_fn
 
 
 # ---------------------------------------------------------------------------------------------- R-LOCORD
@@ -126,6 +127,15 @@ def run_newline(chk, L, rid="R-NEWLINE"):
 
 
 # ---------------------------------------------------------------------------------------------- R-SETPATH
+def _forwards_path(t):
+    for c in calls(t.get("body")):
+        if c.get("name") == "setPath" and len(c.get("args", [])) >= 2:
+            a = _unwrap(c["args"][1])
+            if a.get("k") == "ref" and a.get("dk") == "param":
+                return True
+    return False
+
+
 def run_setpath(chk, F, CG, rid="R-SETPATH"):
     chk.rule(rid, "every function that calls utap_parse() registers the block's path with the position tracker first; "
                   "XMLReader::parse passes the path of the current element; every tracker.setPath in the reader is "
@@ -152,6 +162,11 @@ def run_setpath(chk, F, CG, rid="R-SETPATH"):
         if not q.startswith("UTAP::XMLReader::"):
             continue
         for fn in fns:
+            if fn.get("body") is None:
+                continue
+            # `mark_element(l_path)` -> tracker.setPath(parser, l_path); tracker.increment(..): only helpers that hand
+            # one of their parameters to setPath are looked into
+            fn = expanded_fn(fn, F, accept=_forwards_path, maxdepth=2)
             begun = set()
             for c in calls(fn["body"]):
                 if c.get("name") == "begin" and c.get("args"):
@@ -165,10 +180,15 @@ def run_setpath(chk, F, CG, rid="R-SETPATH"):
                         if v.get("init") is not None:
                             locals_[v["name"]] = v["init"]
             for c in calls(fn["body"]):
-                if c.get("name") != "setPath" or not (c.get("cls") or "").endswith("PositionTracker"):
+                if c.get("name") != "setPath" or not ((c.get("cls") or "").endswith("PositionTracker") or
+                                                      "tracker" in short(c.get("recv"))):
                     continue
-                n += 1
+                if len(c.get("args", [])) < 2:
+                    continue
                 a = _unwrap(c["args"][1])
+                if a.get("k") == "ref" and a.get("dk") == "param":
+                    continue        # a forwarding helper: judged where it is called (expanded there)
+                n += 1
                 src = a
                 if a.get("k") == "ref" and a.get("name") in locals_:
                     src = locals_[a["name"]]
@@ -358,6 +378,14 @@ def _read_conditions(chk, rd, rid):
         k = e.get("k")
         if k == "cast":
             return ev(e["e"], st)
+        if k == "inlined":
+            v = ev(e["call"], st)
+            if v is None:
+                from ..inline import _fold_cond as fold
+                f = fold(e)[0]
+                if f is not e:
+                    return ev(f, st)
+            return v
         if k == "bin" and e["op"] in ("&&", "||"):
             a, b = ev(e["lhs"], st), ev(e["rhs"], st)
             if a is None or b is None:
@@ -382,38 +410,52 @@ def _read_conditions(chk, rd, rid):
     STATES = {"end element": ("end", False), "empty element": ("element", True),
               "non-empty element": ("element", False), "other node": ("other", False)}
 
-    def guard_of(callname):
-        for n in walk(rd["body"]):
-            if n.get("k") == "if":
-                inside = [c for c in calls(n.get("then")) if c.get("name") == callname and "path" in short(c.get("recv"))]
-                incond = [c for c in calls(n.get("c")) if c.get("name") == callname and "path" in short(c.get("recv"))]
-                if incond:
-                    return None, n          # the call sits in a nested condition: handled by its parent
-                if inside:
-                    # innermost if that directly guards the call
-                    inner = [m for m in walk(n.get("then")) if m.get("k") == "if" and
-                             any(c.get("name") == callname for c in calls(m.get("c")))]
-                    return n["c"], n
-        return None, None
-    pushc, _ = guard_of("push")
-    popc = None
-    for n in walk(rd["body"]):
-        if n.get("k") == "if" and any(m.get("k") == "if" and any(c.get("name") == "pop" for c in calls(m.get("c")))
-                                      for m in walk(n.get("then"))):
-            popc = n["c"]
-            break
+    # the conditions under which the path.push / path.pop call sites are reached, whatever the statement shape
+    # (nested ifs, `a && path.pop() != x`, a predicate helper such as closesElement())
+    from ..inline import sites_with_conditions, expanded_fn, _fold_cond
+    from ..facts import CURRENT
+    rdx = expanded_fn(rd, CURRENT, accept=lambda t: (t.get("ret") or "") == "bool") if CURRENT is not None else rd
+
+    adv = [c for c in calls(rdx["body"]) if (c.get("name") or "") == "xmlTextReaderRead"]
+    if len(adv) != 1:
+        raise AnalysisBroken("XMLReader::read: expected exactly one xmlTextReaderRead call")
+    adv_line = adv[0].get("l") or 0
+
+    def site_cond(callname, after_advance):
+        """conditions on the *current node* under which the call is reached: tests made before the reader advances
+        speak about the node being left, tests made after it about the node being entered"""
+        ss = sites_with_conditions(rdx["body"], lambda n: n.get("k") == "call" and n.get("name") == callname and
+                                   "path" in short(n.get("recv")))
+        if len(ss) != 1:
+            return None
+        if ((ss[0][0].get("l") or 0) > adv_line) != after_advance:
+            return None
+        return [(_fold_cond(c)[0], t) for c, t in ss[0][1] if ((c.get("l") or 0) > adv_line) == after_advance]
+    pushc, popc = site_cond("push", True), site_cond("pop", False)
     if pushc is None or popc is None:
         raise AnalysisBroken("XMLReader::read: cannot find the conditions guarding path.push / path.pop")
+
+    def holds(conds, st):
+        vals = []
+        for c, t in conds:
+            v = ev(c, st)
+            if v is None:
+                if any(x.get("k") == "call" and x.get("name") in ("getNodeType", "isEmpty") for x in walk(c)):
+                    return None
+                continue            # a condition about something else (the result of xmlTextReaderRead): no restriction
+            vals.append(v == t)
+        return all(vals)
     want_push = {"end element": False, "empty element": True, "non-empty element": True, "other node": False}
     want_pop = {"end element": True, "empty element": True, "non-empty element": False, "other node": False}
     for name, st in STATES.items():
         for what, cond, want in (("push", pushc, want_push), ("pop", popc, want_pop)):
-            v = ev(cond, st)
+            v = holds(cond, st)
             if v is None:
-                raise AnalysisBroken("XMLReader::read: condition `%s` is not a combination of node-type tests" % short(cond)[:80])
+                raise AnalysisBroken("XMLReader::read: the condition guarding path.%s is not a combination of node-type tests" % what)
             chk.ob(rid, "read|%s|%s" % (what, name), v == want[name],
                    "XMLReader::read %s the element path on a %s (condition `%s`): %s" %
-                   ("does not " + what if want[name] else what + "es", name, short(cond)[:80],
+                   ("does not " + what if want[name] else what + "es", name,
+                    " and ".join(("" if t else "not ") + short(c)[:60] for c, t in cond),
                     "empty elements are siblings too - the index in `label[n]` counts them in the input, so the "
                     "XPath of a later sibling's diagnostics selects the wrong element" if name == "empty element"
                     else "the path no longer mirrors the open elements"),
